@@ -379,11 +379,38 @@ func (w *World) checkLedger() {
 		})
 	}
 	if bad != "" {
-		w.Violate("ENGINE", "ledger-mirror", "bank state and the movements reported by bank events disagree at height %d: %s", w.Height, bad)
+		// The bank keeper reports every movement through events; a balance that changed
+		// without one means an operation failed half way and left a trace (the SDK's
+		// multi-coin send deducts coin by coin before it reports; outside a transaction -
+		// in begin/end block - nothing rolls that back), or a failed transaction leaked.
+		// Coins moved without an account of where to: the escrow / conservation clause of
+		// whatever property the run is deciding is broken. Never seen on the unchanged tree.
+		prop := w.Focus
+		if prop == "" {
+			prop = "ENGINE"
+		}
+		w.Violate(prop, "bank-trace-without-movement/"+accountClass(bad), "bank state and the movements reported by the bank keeper's events disagree after block %d: %s (a failed operation left a partial write behind)", w.Height, bad)
+		w.syncLedgerFromBank()
 	}
 }
 
 func sdkIntFromBig(b *big.Int) sdkInt { return newSdkInt(b) }
+
+var moduleAccountNames = []string{"coinswap", "farm", "reward_collector", "htlc", "nft", "mt", "service_deposit_account",
+	"service_request_account", "service_fee_collector", "token", "fee_collector", "distribution", "gov", "mint", "bonded_tokens_pool", "not_bonded_tokens_pool"}
+
+// accountClass names the module account a mismatch description starts with, else "account".
+func accountClass(desc string) string {
+	for _, n := range moduleAccountNames {
+		if strings.HasPrefix(desc, ModAddr(n)) {
+			return n
+		}
+	}
+	if strings.HasPrefix(desc, "supply ") {
+		return "supply"
+	}
+	return "account"
+}
 
 // buildTx signs the plan's messages with the signer's current sequence.
 func (w *World) buildTx(tp *TxPlan) ([]byte, error) {
